@@ -1,7 +1,7 @@
 /-
   Model.Tsm.Ssm — one segmentation state machine: the code of `SSM`,
   `ClientSSM` and `ServerSSM` (py34/bacpypes/appservice.py, tree AFTER the
-  repairs fixes/Tsm-1 … Tsm-10, C05-server-first-segment-seq0 and C05-client-first-ack-segment-seq0), transcribed branch for branch.
+  repairs fixes/Tsm-1 … Tsm-10, C05-server-first-segment-seq0, C05-client-first-ack-segment-seq0 and C05-await-confirmation-duplicate-segment-ack), transcribed branch for branch.
 
   Every handler is a function of the transaction's key and body and returns
   `(new body | none = set_state(COMPLETED/ABORTED): removed from its list,
@@ -254,8 +254,7 @@ def clientAwaitConfirmation (cfg : Cfg) (now : Nat) (k : Key) (b : Body) (a : Ap
                      st := .segConf, timer := stateTimer now (cfg.segTimeout * 4) },
        [.send k.peer (mkSegAck false false k.id 0 a.win)])
     else clientAbortBoth k abortInvalidApduInThisState
-  else if a.ty = 4 then
-    (some { b with timer := arm now cfg.segTimeout }, [])
+  else if a.ty = 4 then (some b, [])      -- fix C05-await-confirmation-duplicate-segment-ack: late segment ack ignored
   else (some b, [.raised (.invalidApdu 3)])
 
 /-- `ClientSSM.segmented_confirmation(apdu)` -/
